@@ -77,11 +77,6 @@ def coordsToks : Coords UInt64 → Tok
 
 /-! ### JSON text: the total RFC 8259 parser of Text.lean, numbers by exact round-to-nearest-even -/
 
-/-- RFC 8259 `number` grammar check + exact decimal → binary64 (json.Unmarshal: a literal whose value overflows
-binary64 is an UnmarshalTypeError, not ±Inf) -/
-def jsonPn (tok : List Char) : Option UInt64 :=
-  if Dec.jsonNumberOk tok then (Dec.toBits tok).filter Dec.isFiniteBits else none   -- a literal that overflows has no value
-
 def parseJson (s : List Char) : Option BTree := Json.parse jsonPn s
 
 /-- for generator-written documents: a number literal of the RFC grammar whose value overflows binary64 is kept
